@@ -1759,10 +1759,16 @@ class EAStorySwap(ElementAction):
             raise MosMergeError(
                 f"{self.__class__.__name__} error in {self.message_id} - story 2 not found"
             )
+        if story1 is story2:
+            raise MosMergeError(
+                f"{self.__class__.__name__} error in {self.message_id} - cannot swap a story with itself"
+            )
         remove_node(parent=ro.base_tag, node=story1)
         remove_node(parent=ro.base_tag, node=story2)
-        insert_node(parent=ro.base_tag, node=story2, index=story1_index)
-        insert_node(parent=ro.base_tag, node=story1, index=story2_index)
+        # each story takes the other's index; fill the lower index first so
+        # that the higher one is still valid
+        for index, story in sorted([(story1_index, story2), (story2_index, story1)], key=lambda x: x[0]):
+            insert_node(parent=ro.base_tag, node=story, index=index)
         return ro
 
     def inspect(self):
@@ -1832,10 +1838,16 @@ class EAItemSwap(ElementAction):
             raise MosMergeError(
                 f"{self.__class__.__name__} error in {self.message_id} - item 2 not found"
             )
+        if item1 is item2:
+            raise MosMergeError(
+                f"{self.__class__.__name__} error in {self.message_id} - cannot swap an item with itself"
+            )
         remove_node(parent=story, node=item1)
         remove_node(parent=story, node=item2)
-        insert_node(parent=story, node=item2, index=item1_index)
-        insert_node(parent=story, node=item1, index=item2_index)
+        # each item takes the other's index; fill the lower index first so
+        # that the higher one is still valid
+        for index, item in sorted([(item1_index, item2), (item2_index, item1)], key=lambda x: x[0]):
+            insert_node(parent=story, node=item, index=index)
         return ro
 
     def inspect(self):
